@@ -136,7 +136,7 @@ def gen_line(rng, owners, is_zoq: bool):
     words.append(rng.choice(["text", "call", "Read"]))
     targets = []
     punct_used = set()
-    for _ in range(rng.choice([0, 1, 1, 2, 2, 3, 4, 5])):
+    for _ in range(rng.choice([0, 1, 1, 2, 2, 3, 4, 5, 5, 10, 12])):  # also more than nine targets (two-digit option numbers)
         for _f in range(rng.choice([0, 0, 1, 2])):
             words.append(rng.choice(FILLERS))
         r = rng.random()
